@@ -69,6 +69,37 @@ func Mutants(toks []Tok) []Mutant {
 			out = append(out, Mutant{"rename", fmt.Sprintf("rename use #%d of %s", i, t.Text), m, false})
 		}
 	}
+	// ... and to the text of each string literal of the file that is spelled like such a name (a literal is a token,
+	// it does not define the production or regular definition of the same spelling)
+	for _, l := range toks {
+		if l.Kind != "string_lit" || len(l.Text) < 3 {
+			continue
+		}
+		body := l.Text[1 : len(l.Text)-1]
+		kind := ""
+		switch {
+		case body[0] >= 'A' && body[0] <= 'Z':
+			kind = "prodId"
+		case body[0] == '_' && len(body) > 1:
+			kind = "regDefId"
+		}
+		okName := kind != ""
+		for _, c := range body {
+			if !(c == '_' || c >= '0' && c <= '9' || c >= 'a' && c <= 'z' || c >= 'A' && c <= 'Z') {
+				okName = false
+			}
+		}
+		if !okName {
+			continue
+		}
+		for i, t := range toks {
+			if t.Kind == kind && t.Text != body && !(i+1 < len(toks) && toks[i+1].Kind == ":") {
+				m := cloneToks(toks)
+				m[i].Text = body
+				out = append(out, Mutant{"rename", fmt.Sprintf("rename use #%d of %s to %s, the text of a string literal", i, t.Text, body), m, false})
+			}
+		}
+	}
 	// duplication of each lexical definition
 	for _, p := range productions(toks) {
 		if h := toks[p[0]].Kind; h == "tokId" || h == "regDefId" || h == "ignoredTokId" {
